@@ -17,6 +17,11 @@ PRE = "From Coq Require Import List String.\nFrom Syc Require Import Async.Strea
 #                                 boundaries and tasks inside the views are disposed in the middle of the render; for the boundary that
 #                                 reads it, it is a task with no content (modelled as an async component without content); the gates
 #                                 inside the views gate nothing that survives
+#      | ("flip", gate)  a suspense task of the surrounding boundary that sets the flag `gate` when the gate opens (modelled as an async
+#                        component without content)
+#      | ("when", gate, [views]) / ("unless", gate, [views])  dynamic views showing the views once / until the flag is set. `when` is
+#                        modelled as an async component on the same gate (its flip must sit under the same or an enclosing boundary);
+#                        `unless` is modelled as nothing (in the sync render, where no task ever runs, as its content)
 #      | ("cresv", [views])  a CLIENT resource read here: on the server nothing is fetched, nothing is shown, no task exists
 #      | ("live",)   a dynamic text "alive" that a cleanup callback of its scope turns into "gone" (the render must show "alive")
 #      | ("trans", id, [views])    Transition: in the three SSR modes it must behave as a Suspense boundary (modelled as one)
@@ -32,6 +37,10 @@ def sx(v):
         return "(cresv (%s))" % " ".join(sx(c) for c in v[1])
     if v[0] == "live":
         return "(live)"
+    if v[0] == "flip":
+        return "(flip %d)" % v[1]
+    if v[0] in ("when", "unless"):
+        return "(%s %d (%s))" % (v[0], v[1], " ".join(sx(c) for c in v[2]))
     if v[0] == "text":
         return "(text %s)" % hx(v[1])
     if v[0] == "el":
@@ -43,22 +52,30 @@ def sx(v):
     return "(%s %d (%s))" % (v[0] if v[0] in ("resv", "resu") else "async", v[1], " ".join(sx(c) for c in v[2]))
 
 
-def splice(vs):
-    """dynamic blocks are transparent for the abstract model (they only add marker comments and an effect scope)"""
+def splice(vs, sync=False):
+    """dynamic blocks are transparent for the abstract model (they only add marker comments and an effect scope); [sync]: the reading
+    for the sync render, in which no task ever runs (flags stay unset)"""
     out = []
     for v in vs:
         if v[0] == "dyn":
-            out += splice(v[1])
+            out += splice(v[1], sync)
+        elif v[0] == "flip":
+            out.append(("async", v[1], []))
+        elif v[0] == "when":
+            out.append(("async", v[1], splice(v[2], sync)))
+        elif v[0] == "unless":
+            if sync:
+                out += splice(v[2], sync)
         elif v[0] == "cresv":
             pass                      # shows nothing on the server
         elif v[0] in ("text", "live"):
             out.append(v)
         elif v[0] == "el":
-            out.append(("el", v[1], splice(v[2])))
+            out.append(("el", v[1], splice(v[2], sync)))
         elif v[0] == "resu":
             out.append(("async", v[1], []))
         else:
-            out.append((v[0], v[1], splice(v[2])))
+            out.append((v[0], v[1], splice(v[2], sync)))
     return out
 
 
@@ -77,6 +94,10 @@ def cq(v):
 def gates(v):
     if v[0] in ("text", "live", "cresv"):
         return []
+    if v[0] == "flip":
+        return [v[1]]
+    if v[0] in ("when", "unless"):
+        return [g for c in v[2] for g in gates(c)]
     if v[0] == "dyn":
         return [g for c in v[1] for g in gates(c)]
     if v[0] in ("async", "resv", "resu"):
@@ -85,7 +106,7 @@ def gates(v):
 
 
 def boundary_ids(v):
-    if v[0] in ("text", "live", "cresv"):
+    if v[0] in ("text", "live", "cresv", "flip"):
         return []
     if v[0] == "dyn":
         return [b for c in v[1] for b in boundary_ids(c)]
@@ -136,6 +157,9 @@ def shapes():
     LIVE = ("live",)
     CV = lambda *c: ("cresv", list(c))
     U = lambda g, *c: ("resu", g, list(c))
+    FL = lambda g: ("flip", g)
+    W = lambda g, *c: ("when", g, list(c))
+    N = lambda g, *c: ("unless", g, list(c))
     A = lambda g, *c: ("async", g, list(c))
     D = lambda *c: ("dyn", list(c))
     return [
@@ -190,6 +214,15 @@ def shapes():
         [S(1, U(1, S(2, A(2, T("b")), S(3, A(3, T("c"))))), A(4, T("a")))],
         [E("div", S(1, U(1, S(2, A(2, T("b")))), T("x")), S(3, A(3, T("c"))))],
         [S(1, A(1, U(2, S(2, A(3, T("b")))), T("a")))],
+        # content created / removed in the middle of the render by a task of the same or an enclosing boundary: a nested boundary or a
+        # Transition that was idle gains work when the task completes, a boundary is created by it, content is removed by it
+        [S(1, R(2, E("p", W(1, A(2, T("late"))))), FL(1))],
+        [S(1, S(2, E("p", W(1, A(2, T("late"))))), FL(1))],
+        [S(1, W(1, S(2, A(2, T("b")))), FL(1))],
+        [S(1, FL(1), S(2, W(1, A(2, T("x"))), T("s")))],
+        [S(1, N(1, S(2, A(2, T("b")))), FL(1), T("z"))],
+        [S(1, R(2, N(1, A(2, T("gone"))), T("t")), FL(1))],
+        [S(1, R(2, T("t"), W(1, R(3, A(2, T("u"))))), FL(1))],
         # Transition boundaries (a Suspense around a detached suspense scope): alone, around and inside ordinary boundaries
         [R(1, A(1, T("a")))],
         [R(1, A(1, T("x")), S(2, A(2, T("y"))))],
@@ -200,9 +233,31 @@ def shapes():
     ]
 
 
-def cases(tier, rng):
+def lenient_shapes():
+    """content OUTSIDE the boundary whose task removes it, i.e. in a region the stream has already sent: what the client then shows is
+    not covered by the property (the fragments cannot reach it); judged: the sync render, the blocking render in full, and for the
+    stream only that it ends, never repeats a boundary and never panics"""
+    T = lambda s: ("text", s)
+    E = lambda t, *c: ("el", t, list(c))
+    S = lambda i, *c: ("sus", i, list(c))
+    A = lambda g, *c: ("async", g, list(c))
+    D = lambda *c: ("dyn", list(c))
+    FL = lambda g: ("flip", g)
+    N = lambda g, *c: ("unless", g, list(c))
+    return [
+        # a loading boundary listed BEFORE the boundary whose task removes it
+        [D(N(1, S(1, A(2, T("a"))))), S(2, FL(1), T("c"))],
+        [E("div", N(1, S(1, A(2, T("a"))))), S(2, FL(1), A(3, T("c")))],
+        [N(1, S(1, A(2, T("a"))), S(3, A(3, T("b")))), S(2, FL(1))],
+        # ... and after it
+        [S(2, FL(1), T("c")), D(N(1, S(1, A(2, T("a")))))],
+        [S(2, FL(1)), N(1, S(1, S(3, A(2, T("a")))))],
+    ]
+
+
+def cases(tier, rng, lenient=False):
     out = []
-    for vs in shapes():
+    for vs in (lenient_shapes() if lenient else shapes()):
         gs = sorted(set(g for v in vs for g in gates(v)))
         perms = list(itertools.permutations(gs))
         if tier == "quick" and len(perms) > 6:
@@ -235,9 +290,9 @@ def real_view(vs):
     return vs[0] if len(vs) == 1 and len(splice(vs)) == 1 else ("el", "main", vs)
 
 
-def model_view(vs):
-    sp = splice(vs)
-    return [sp[0]] if len(vs) == 1 and len(sp) == 1 else [("el", "main", sp)]
+def model_view(vs, sync=False):
+    sp = splice(vs, sync)
+    return [sp[0]] if len(vs) == 1 and len(splice(vs)) == 1 else [("el", "main", sp)]
 
 
 def run_model(pid, cs, chunk=30):
@@ -425,11 +480,11 @@ def normalize_model(lines):
 
 
 # ---- the oracle: the property restated on the observation ----
-def oracle(vs, sched, obs):
-    fails = list(obs["problems"])
+def oracle(vs, sched, obs, lenient=False):
+    fails = list(obs["problems"]) if not lenient else [p for p in obs["problems"] if "panicked" in p or "twice" in p]
     views = model_view(vs)
     want_full = "".join(full(v) for v in views)
-    want_shell = "".join(shell(v) for v in views)
+    want_shell = "".join(shell(v) for v in model_view(vs, sync=True))
     allg = set(g for v in views for g in gates(v))
     allb = [b for v in views for b in boundary_ids(v)]
     if obs["sync"] != want_shell:
@@ -459,7 +514,10 @@ def oracle(vs, sched, obs):
     for x in set(em):
         if em.count(x) > 1:
             fails.append("boundary %s streamed %d times" % (x, em.count(x)))
-    if k_all is not None:
+    if k_all is not None and lenient:
+        if obs["ended"] is None:
+            fails.append("the stream did not end although all tasks have finished")
+    elif k_all is not None:
         missing = [str(bb) for bb in allb if str(bb) not in em]
         if missing:
             fails.append("boundaries never streamed although all tasks finished: " + " ".join(missing))
